@@ -6,7 +6,7 @@ CONSTANTS
   NSec = 3
   MaxFilesQ = 2
   MaxBytesQ = 6
-  MaxFaults = 1
+  MaxFaults = 0
   PatLen = 3
   PatByte = 7
 INVARIANTS
